@@ -1360,3 +1360,76 @@ def replay(ctx, payload):
         m = re.match(r'wide(\d+)x(\d+)$', fam)
         if m:
             check_dag(ctx, fam_wide(int(m.group(1)), int(m.group(2))), fam)
+
+
+# ---- c19src2: bytes fed to SHA-256 by the regenerated constructor (Properties/C19Hash.lean, Proofs/SrcCtorBytes.lean) ----
+SPEC['property_modules'] = list(SPEC.get('property_modules', [])) + ['C19Hash']
+SPEC['lean_targets'] = list(SPEC.get('lean_targets', [])) + ['TonVerif.Proofs.SrcCtorBytes', 'TonVerif.Proofs.SrcHeaderWork']
+SPEC['manifest']['text'] += (
+    ' SHA-256 BYTES ON THE SOURCE (Properties/C19Hash.lean): c19_src_hash_bytes proves on the regenerated constructor (Generated/CellCtor.lean, tied to the hand '
+    'model for all inputs by c02_src_constructor) that the _hashes of every returning Cell.__init__ are sha256 of a list of inputs, at most bit_length(mask)+1 of '
+    'them, each at most 2 + max(len(data_bytes), 32) + 34*len(refs) bytes (<= 266 for <= 1023 bits and <= 4 references), in total at most the cost model\'s '
+    'ctorBytes, and that stored hashes stay <= 32 bytes (closed under the constructor); c19_src_hash_input_len: a hash function agreeing with sha256 on all '
+    'strings of at most that length gives the same constructor result, i.e. nothing longer is ever hashed; c19_src_build_bytes: n calls feed <= 2394*n bytes; '
+    'the per-input bound is also evaluated on CPython for every sha256 object of every constructed DAG (build:sha-input-len). '
+    'HEADER WORK ON THE SOURCE: c19_src_header_work_partial proves on the regenerated deserialize_boc_header that a returning parse read exactly 3 size fields, '
+    'roots_num root indices and cells_num index entries after the length pre-checks (3 + roots + index <= len - 3, size_bytes / offset_bytes >= 1) and ran the '
+    'Python CRC loop once over exactly len - 4 bytes; for raising header runs the counts remain the cost model bocCost.hdr / crc.')
+
+
+# ---- c19src2: the per-input bound of c19_src_hash_bytes on the library (every sha256 object of every constructor call) ----
+class _ShaPerObject(_ShaCount):
+    """like _ShaCount, additionally the number of bytes each sha256 object received (in creation order)"""
+
+    def __init__(self):
+        super().__init__()
+        self.per = []
+
+    def sha256(self, data=b''):
+        outer = self
+        k = len(outer.per)
+        outer.per.append(len(data))
+        w = super().sha256(data)
+        upd = w.update
+
+        def update(d):
+            outer.per[k] += len(d)
+            upd(d)
+        w.update = update
+        return w
+
+
+def check_sha_inputs(ctx, nodes, inp, tag):
+    """c19_src_hash_bytes on the library: constructing the DAG children first, cell k creates `levels_k` sha256 objects, each fed at most
+    2 + max(len(data_bytes), 32) + 34 * len(refs) bytes (<= 266)."""
+    import pytoniq_core.boc.cell as cellmod
+    cnt = _ShaPerObject()
+    saved = cellmod.hashlib
+    cellmod.hashlib = cnt
+    try:
+        cells = G.lib_build(nodes, 'ctor')
+    finally:
+        cellmod.hashlib = saved
+    if any(c is None for c in cells):
+        return
+    lvs = [1 if c.type_ == G.PRUNED else bin(c.level_mask.mask).count('1') + 1 for c in cells]
+    if len(cnt.per) != sum(lvs):
+        return          # reported by check_build_hashing (build:sha-calls)
+    ctx.count('op:build-sha-inputs')
+    pos = 0
+    for k, (c, lv) in enumerate(zip(cells, lvs)):
+        bound = 2 + max((len(c.bits) + 7) // 8, 32) + 34 * len(c.refs)
+        worst = max(cnt.per[pos:pos + lv])
+        pos += lv
+        if worst > bound or worst > 266:
+            ctx.fail('build:sha-input-len', f'constructing cell {k} of {tag} ({len(c.bits)} bits, {len(c.refs)} refs) fed {worst} bytes to one sha256 object '
+                                            f'> 2 + max(data bytes, 32) + 34*refs = {bound} (c19_src_hash_bytes)', inp, worst, f'<= {bound}')
+            return
+
+
+_check_build_hashing_base = check_build_hashing
+
+
+def check_build_hashing(ctx, nodes, arg, inp, tag):      # noqa: F811  (run() resolves the name at call time)
+    _check_build_hashing_base(ctx, nodes, arg, inp, tag)
+    check_sha_inputs(ctx, nodes, inp, tag)
